@@ -43,6 +43,23 @@ Theorem C18_croo_le_lroo : forall times vals,
 Proof. exact croo_le_lroo. Qed.
 Print Assumptions C18_croo_le_lroo.
 
+(** laws of the longest run, hence of lroo: reading the series backwards changes nothing ... *)
+Theorem C18_lroo_time_reversal : forall l, lroo (rev l) = lroo l.
+Proof. intros l. unfold lroo. now rewrite lroo_rev. Qed.
+Print Assumptions C18_lroo_time_reversal.
+
+(** ... more data on either side never shortens it ... *)
+Theorem C18_longest_run_extension : forall a b La Lb L,
+  longest_run a La -> longest_run b Lb -> longest_run (a ++ b) L -> La <= L /\ Lb <= L.
+Proof. exact longest_run_app_mono. Qed.
+Print Assumptions C18_longest_run_extension.
+
+(** ... and a value other than 1 (0, nodata, 2, ...) separates: runs never cross it *)
+Theorem C18_longest_run_separator : forall a b x La Lb,
+  x <> 1 -> longest_run a La -> longest_run b Lb -> longest_run (a ++ x :: b) (Z.max La Lb).
+Proof. exact longest_run_split. Qed.
+Print Assumptions C18_longest_run_separator.
+
 Example C18_example :
   lroo [0; 1; 1; 0; 1; 1; 1; 0; 1] = 3 /\ lroo [1; 0; 1; 0] = 0 /\
   croo [(3, 1); (1, 1); (2, 0); (4, 1)] = 2 /\ croo [(1, 1); (2, 1); (3, 0)] = 0 /\
